@@ -1056,7 +1056,7 @@ def corpus():
     yield {"op": "find", "w": 2, "rate": 8, "hex": enc_samples([0] * 2, 2).hex(), "style": "zero", "t": 0.0, "step": 0.25}
     # ties go left
     yield {"op": "find", "w": 1, "rate": 8, "hex": enc_samples([1, 0, 1, 1, 1, 0, 1], 1).hex(), "style": "sparse-zero", "t": 0.375, "step": 0.5}
-    # C18-3 (fixed, f81e27e): audioSplice accepted an insertion point outside the textgrid's span and a segment of another
+    # C18-3 (fixed, e7d7671): audioSplice accepted an insertion point outside the textgrid's span and a segment of another
     # rate / width, and had edited the caller's Wav before it raised (CollisionError, KeyError, reversed region)
     tg = {"lo": 0.0, "hi": 12.5, "tiers": [{"k": "I", "name": "T", "lo": 0.0, "hi": 12.5,
                                               "es": [[1.25, 3.75, "a"], [3.75, 7.5, "b"], [10.0, 11.25, "c"]]}]}
